@@ -16,8 +16,8 @@ ID = 'C15'
 LEVEL = 'fault_enumeration'
 EVAL_PROBE = 'crash-states'
 ENGINE = 'crash'
-BUDGET = {'quick': 900, 'thorough': 20000}
-WALL = {'quick': 50, 'thorough': 1800}
+BUDGET = {'quick': 1400, 'thorough': 20000}
+WALL = {'quick': 90, 'thorough': 1800}
 RULE = ('scenarios: trash-restore (single / multi index; file, deep directory, symlink; same-volume and cross-volume destination so that copy '
         'and delete steps are crash points), trash-empty (with/without DAYS, several trash dirs, orphans), trash-rm (several matches); ALL '
         'crash points of each scenario are visited; crash-state invariant: every payload under files/ that had an info still has it, an '
